@@ -22,7 +22,7 @@ RULE = ('random + directed logical TDMS files from vlib.model (1-6 segments, 1-5
 ASSUMPTIONS = ['the model/encoder in vlib/model.py is a correct reading of the NI TDMS layout (cross-checked by '
                'vlib.refparse on LabVIEW-written files and by agreement with the reader on >10^5 files)',
                'property equality is by value (NaN == NaN); channel values are compared as little-endian bytes']
-REQUIRED = ['contract:receiver.append_data', 'contract:segment._calculate_chunks', 'contract:file._read_data',
+REQUIRED = ['dtype_checked', 'contract:receiver.append_data', 'contract:segment._calculate_chunks', 'contract:file._read_data',
             'files_by_path', 'files_with_memmap', 'props_compared']
 
 N = {'quick': 16000, 'thorough': 2000000}
@@ -139,6 +139,11 @@ def check_against_model(ctx, segs, tf, tag):
             data = c[:]
             want = C.expected_image(t, exp.flat(p))
             got = C.image(data)
+            if M.TYPES[t][1] is not None:
+                # 'with the encoded data type': the NumPy type of that TDMS type, in native byte order as channel.dtype declares it
+                ctx.count('dtype_checked')
+                if not isinstance(data, np.ndarray) or data.dtype != np.dtype(M.TYPES[t][1]):
+                    bad.append(('numpy-dtype:' + t, p, str(getattr(data, 'dtype', type(data).__name__)), M.TYPES[t][1]))
             ctx.count('values_compared', n)
             if not C.img_equal(got, want):
                 lay = sorted({('I' if s.interleaved else 'C') for s in segs if any(pp == p and hd for pp, hd, _ in s.active) and s.chunks})
